@@ -1080,13 +1080,15 @@ func ruleDispatch(c *Ctx, dv *dev, rule string, wantKey, wantAbs bool) {
 				}
 				n++
 				calls, locked := 0, true
-				for _, e := range p.Effects {
+				for ei, e := range p.Effects {
 					if e.Kind == "call" && e.Callee == cs.want {
 						calls++
 						if len(e.Args) < 2 || e.Args[1].Op != "param" {
 							bad = "the handler is not given the event that was received"
 						}
-						if !heldAt(e.Instr, dv.fields["eventProcessMutex"]) {
+						// held at the call: structurally in the calling function, or - when the handler is reached through a
+						// function value (a dispatch table) - by the Lock/Unlock calls that precede it on this path
+						if !heldAt(e.Instr, dv.fields["eventProcessMutex"]) && !lockedOnPath(p, ei, dv.fields["eventProcessMutex"]) {
 							locked = false
 						}
 					}
@@ -1170,4 +1172,25 @@ func ruleDispatch(c *Ctx, dv *dev, rule string, wantKey, wantAbs bool) {
 		}
 		c.Check(okCall, rule, "device.ProcessEvents/every-event->processEvent", c.P.Pos(pe.Pos()), "each iteration of the input loop calls processEvent with the received event", "the input loop does not hand every received event to processEvent")
 	}
+}
+
+// lockedOnPath: on path p, before effect idx, the last Lock/Unlock call on the mutex held in field f is a Lock.
+func lockedOnPath(p *Path, idx int, f *types.Var) bool {
+	held := false
+	for i := 0; i < idx && i < len(p.Effects); i++ {
+		e := p.Effects[i]
+		if e.Kind != "call" || e.Callee == nil || len(e.Args) == 0 || !e.Args[0].LoadsField(f) && !e.Args[0].Any(func(t *Term) bool { return t.Op == "fieldaddr" && t.Obj == types.Object(f) }) {
+			continue
+		}
+		if e.Callee.Pkg == nil || e.Callee.Pkg.Pkg.Path() != "sync" {
+			continue
+		}
+		switch e.Callee.Name() {
+		case "Lock":
+			held = true
+		case "Unlock":
+			held = false
+		}
+	}
+	return held
 }
